@@ -385,22 +385,54 @@ func (c12) Run(ctx *RunCtx) {
 			// the update runs as a task, interleaved at every lock and disk call
 			// with tasks that read the aggregated view (what background analyses
 			// and requests do): a reader must never leave a stale derived cache behind
+			twoUpdates := false
 			sched := simrt.NewSched(c, ctx.Log)
 			sched.MapOrder = simrt.DirectMapOrder
 			simrt.Activate(sched)
 			nr := 1 + c.Choose("readers", 2)
+			// what each reader saw: copied at read time (the maps may be shared caches)
+			type seen struct{ acct, com map[string]bool }
+			sights := make([]seen, nr)
+			cp := func(m map[string]bool) map[string]bool {
+				out := map[string]bool{}
+				for k, v := range m {
+					out[k] = v
+				}
+				return out
+			}
 			for r := 0; r < nr; r++ {
+				r := r
 				simrt.Go("c12:reader", func() {
-					sut.GetDeclaredAccounts()
-					sut.GetDeclaredCommodities()
+					sights[r].acct = cp(sut.GetDeclaredAccounts())
+					sights[r].com = cp(sut.GetDeclaredCommodities())
 					sut.GetCommodityFormats()
 					sut.IndexSnapshot()
 				})
+			}
+			judgeReaders := func() {
+				// old or new, never a mixture: a reader that overlapped ONE update saw
+				// the declared sets of the state before or after it
+				if crashed != "" || len(ctx.Violations) > 0 || twoUpdates {
+					return
+				}
+				after := viewOf(sut)
+				for r, sg := range sights {
+					for _, pair := range []struct {
+						what        string
+						got, b4, af map[string]bool
+					}{{"declared accounts", sg.acct, before.DeclAcct, after.DeclAcct}, {"declared commodities", sg.com, before.DeclCom, after.DeclCom}} {
+						if !reflect.DeepEqual(emptyNil(pair.got), emptyNil(pair.b4)) && !reflect.DeepEqual(emptyNil(pair.got), emptyNil(pair.af)) {
+							ctx.Fail(&Violation{Property: "C12", Oracle: "fresh-workspace", Class: "reader-saw-a-mixture", Msg: fmt.Sprintf("step %d (%s): reader %d, running concurrently with the update, got %s %v - neither the set before the update %v nor after it %v", step, what, r, pair.what, keysOf(pair.got), keysOf(pair.b4), keysOf(pair.af))})
+							return
+						}
+					}
+				}
 			}
 			// sometimes an intermediate keystroke precedes the text of this step, so
 			// that a reader can miss the cache between two updates
 			pre := ""
 			if c.Pct("two-updates", 60) {
+				twoUpdates = true
 				// same include lines as the final text (membership changes once, so
 				// the bookkeeping of unsaved member texts stays exact), other content
 				pre = text + fmt.Sprintf("account zz:typed%d\ncommodity 1.000,00 ZZ%d\n\n2024-05-05 keystroke%d  ; typed:%d\n    zz:typed%d  1 ZZ%d\n    assets:cash\n", step, step, step, step, step, step)
@@ -429,6 +461,11 @@ func (c12) Run(ctx *RunCtx) {
 			}
 			if len(sched.Panics) > 0 {
 				crashed = sched.Panics[0].Value
+			}
+			judgeReaders()
+			if len(ctx.Violations) > 0 {
+				ctx.NonTrivial = true
+				return
 			}
 		} else {
 			guard(func() { sut.UpdateFile(p, text) })
